@@ -125,24 +125,12 @@ Theorem cmp_total_on_kind : forall k a b,
 Proof.
   intros k a b Ha Hb. destruct k; cbn [in_kind] in Ha, Hb.
   - (* KInt *)
-    assert (Hrepr : forall v z, is_intlike v = true -> as_i64 v = Some z -> to_string_repr v <> []).
-    { intros v z Hv Hz. destruct v; cbn in *; try discriminate; try apply dec_of_Z_nonempty.
-      eapply parse_i64_nonempty; eassumption. }
-    assert (Hsome : forall v, is_intlike v = true -> v = VNull \/ exists z, as_i64 v = Some z).
-    { intros v Hv. destruct v; cbn in *; try discriminate; eauto.
-      destruct (parse_i64 s); [eauto|discriminate]. }
-    assert (Hagree : forall v x z, as_u64 v = Some x -> as_i64 v = Some z -> x = z).
-    { intros v x z Hx Hz. destruct v; cbn in *; try discriminate.
-      - destruct (0 <=? z0); congruence.
-      - destruct (0 <=? z0); congruence.
-      - eapply parse_u64_i64_agree; eassumption. }
-    destruct (Hsome a Ha) as [->|[x Hx]], (Hsome b Hb) as [->|[y Hy]].
-    + reflexivity.
-    + cbn [typed_compare]. rewrite Hy. cbn. apply scalar_compare_null_l. eauto.
-    + cbn [typed_compare]. rewrite Hx. cbn. apply scalar_compare_null_r; eauto.
-    + cbn [typed_compare]. rewrite Hx, Hy. cbn [opt_cmp]. unfold scalar_compare. rewrite Hx, Hy.
-      destruct (as_u64 a) as [xa|] eqn:Ea, (as_u64 b) as [xb|] eqn:Eb; try reflexivity.
-      now rewrite (Hagree a xa x Ea Hx), (Hagree b xb y Eb Hy).
+    destruct a as [| |xa| |xa| |], b as [| |xb| |xb| |]; cbn in Ha, Hb; try discriminate;
+      try reflexivity;
+      try (cbn [typed_compare as_i64 opt_cmp]; apply scalar_compare_null_l; apply dec_of_Z_nonempty);
+      try (cbn [typed_compare as_i64 opt_cmp]; apply scalar_compare_null_r; [apply dec_of_Z_nonempty|auto]);
+      unfold scalar_compare; cbn [as_u64 as_i64 typed_compare opt_cmp];
+      destruct (0 <=? xa), (0 <=? xb); reflexivity.
   - (* KU64 *)
     assert (Hsome : forall v, is_u64like v = true -> v = VNull \/ exists z, as_u64 v = Some z).
     { intros v Hv. destruct v; cbn in *; try discriminate; eauto.
@@ -240,7 +228,7 @@ Proof.
 Qed.
 
 Example cmp_total_outside_known_nonvacuous :
-  classify_column [VInt 3; VNull; VStr [50%N; 48%N]] = None
+  classify_column [VInt 3; VNull; VTs 20] = None
   /\ classify_column [s9; s10; s1a] = Some NumericLookingStrings
   /\ classify_column [i2p53; i2p53s; f2p53] = Some NumericMixed.
 Proof. vm_compute. auto. Qed.
